@@ -263,6 +263,37 @@ func runCheck(prop, tier, repo, evdir string, verbose bool) int {
 		}(i, f)
 	}
 	wg.Wait()
+	// obligations still undischarged get one more attempt on an otherwise idle machine with a longer limit
+	// (a timeout under load must not become an alarm)
+	{
+		var wg2 sync.WaitGroup
+		sem2 := make(chan struct{}, 4)
+		for i := range results {
+			f := results[i].f
+			if f == nil || results[i].vs == nil {
+				continue
+			}
+			for k, v := range results[i].vs {
+				if v == nil || v.Oblig.IsCover || v.Status == "unsat" || v.Status == "trivial" || v.Status == "sat" || v.Status == "error" {
+					continue
+				}
+				if matchKnown(known, prop, v.Oblig.Name) != nil || matchNotClaimed(notClaimed, prop, v.Oblig.Name) != nil {
+					continue
+				}
+				wg2.Add(1)
+				go func(i, k int, f *FuncVC, v *Verdict) {
+					defer wg2.Done()
+					sem2 <- struct{}{}
+					defer func() { <-sem2 }()
+					nv := raceOne(f, v.Oblig, v, SolveOpts{TimeoutMs: timeout * 3, WorkDir: work})
+					if nv.Status == "unsat" || nv.Status == "sat" {
+						results[i].vs[k] = nv
+					}
+				}(i, k, f, v)
+			}
+		}
+		wg2.Wait()
+	}
 
 	// verdicts
 	replayDir := filepath.Join(verifDir, "replay", prop)
